@@ -67,6 +67,20 @@ type Case struct {
 	P       Params `json:"params"`
 	// Alt, if set, is a second configuration differing from P in unrelated parameters only
 	Alt *Params `json:"alt,omitempty"`
+	// V2Delta != 0: a second protocol version with genesis V2Genesis (> 0) and that maximum operation time delta is in
+	// force next to the first one (genesis 0, P); StampV2 says under which of the two the operation was accepted
+	// (its protocol-version stamp) - that version's delta governs a missing anchorUntil, whatever the anchoring time
+	V2Delta   uint64 `json:"v2TimeDelta,omitempty"`
+	V2Genesis uint64 `json:"v2Genesis,omitempty"`
+	StampV2   bool   `json:"stampV2,omitempty"`
+}
+
+// delta is the maximum operation time delta that governs the case's operation.
+func (c *Case) delta() uint64 {
+	if c.V2Delta != 0 && c.StampV2 {
+		return c.V2Delta
+	}
+	return c.P.TimeDelta
 }
 
 func init() {
@@ -111,11 +125,20 @@ func build(c *Case) (string, []*hist.Anchored) {
 	if c.T <= 1 {
 		createTime = 0
 	}
-	return cr.Suffix, []*hist.Anchored{cr.At(createTime, 0, "ref-c", 0), op.At(c.T, 5, "ref-op", 0)}
+	pv := uint64(0)
+	if c.V2Delta != 0 && c.StampV2 {
+		pv = c.V2Genesis
+	}
+	return cr.Suffix, []*hist.Anchored{cr.At(createTime, 0, "ref-c", 0), op.At(c.T, 5, "ref-op", pv)}
 }
 
 func resolveUnder(c *Case, p Params, suffix string, h []*hist.Anchored) *res.Outcome {
 	pc := wire.NewClient(wire.Build(p.protocol(c.Code), wire.Deps{}))
+	if c.V2Delta != 0 {
+		p2 := p.protocol(c.Code)
+		p2.GenesisTime, p2.MaxOperationTimeDelta = c.V2Genesis, c.V2Delta
+		pc = wire.NewClient(wire.Build(p.protocol(c.Code), wire.Deps{}), wire.Build(p2, wire.Deps{}))
+	}
 	_, ops := hist.Split(h)
 	return res.Resolve(pc, suffix, ops, nil)
 }
@@ -129,11 +152,11 @@ func evalCase(c *Case) (kind, sig, msg string) {
 		return "C05/panic", "panic", got.Panic
 	}
 	ds, _ := hist.Split(h)
-	m := refmodel.Resolve(ds, refmodel.Params{MaxTimeDelta: c.P.TimeDelta})
-	in := refmodel.InWindow(c.From, c.Until, c.T, c.P.TimeDelta)
+	m := refmodel.Resolve(ds, refmodel.Params{MaxTimeDelta: c.delta()})
+	in := refmodel.InWindow(c.From, c.Until, c.T, c.delta())
 	if v, _ := res.VsModel(got, m); len(v) > 0 {
-		return "C05/window-effect", "window-effect/" + c.Type, fmt.Sprintf("%s with window (from=%d, until=%d) anchored at %d under maxOperationTimeDelta=%d (in window: %v) resolves differently from the statement on %v: implementation=%s expected=%s; params=%s",
-			c.Type, c.From, c.Until, c.T, c.P.TimeDelta, in, v, js(got), js(m), js(c.P))
+		return "C05/window-effect", "window-effect/" + c.Type, fmt.Sprintf("%s with window (from=%d, until=%d) anchored at %d under maxOperationTimeDelta=%d (in window: %v; second version: genesis %d delta %d, stamped with it: %v) resolves differently from the statement on %v: implementation=%s expected=%s; params=%s",
+			c.Type, c.From, c.Until, c.T, c.delta(), in, c.V2Genesis, c.V2Delta, c.StampV2, v, js(got), js(m), js(c.P))
 	}
 	if c.Alt != nil {
 		alt := resolveUnder(c, *c.Alt, suffix, h)
@@ -153,7 +176,7 @@ func nearBoundary(c *Case) bool {
 	}
 	eff := c.Until
 	if eff == 0 {
-		eff = c.From + int64(c.P.TimeDelta)
+		eff = c.From + int64(c.delta())
 	}
 	d := func(a, b int64) int64 {
 		if a > b {
@@ -244,7 +267,7 @@ func TestBoundarySweep(t *testing.T) {
 }
 
 func TestRapidTriples(t *testing.T) {
-	ev.Rule(chkRapid, "rapid: (anchorFrom, anchorUntil, anchoring time) triples drawn around the boundaries with drawn maxOperationTimeDelta and drawn unrelated parameters (pairwise distinct), all 5 key types and both hash algorithms; same oracle")
+	ev.Rule(chkRapid, "rapid: (anchorFrom, anchorUntil, anchoring time) triples drawn around the boundaries with drawn maxOperationTimeDelta and drawn unrelated parameters (pairwise distinct), all 5 key types and both hash algorithms; in one case of three a second protocol version with another delta is in force (genesis at or just after the anchoring time) and the operation is stamped with either version - the stamped version's delta governs; same oracle")
 	ev.Rapid(t, chkRapid, 600, 6000, func(t *rapid.T) {
 		p := baseParams()
 		p.TimeDelta = uint64(rapid.IntRange(1, 200000).Draw(t, "timeDelta"))
@@ -271,8 +294,28 @@ func TestRapidTriples(t *testing.T) {
 			alt := rapid.SampledFrom(altConfigs(p)).Draw(t, "alt")
 			c.Alt = &alt
 		}
+		if rapid.IntRange(0, 2).Draw(t, "secondVersion") == 0 {
+			// a second protocol version with another delta; its genesis lies at or just after the anchoring time, and
+			// the operation carries the stamp of either version
+			c.V2Delta = uint64(rapid.IntRange(1, 200000).Draw(t, "v2TimeDelta"))
+			c.V2Genesis = c.T + uint64(rapid.IntRange(0, 1).Draw(t, "v2GenesisAfter"))
+			if c.V2Genesis == 0 {
+				c.V2Genesis = 1
+			}
+			c.StampV2 = rapid.Bool().Draw(t, "stampV2")
+			if rapid.Bool().Draw(t, "anchorAtV2Boundary") {
+				// move the anchoring time to the boundary of the window that the governing version defines
+				if from != 0 && until == 0 {
+					nt := from + int64(c.delta()) + int64(rapid.IntRange(-1, 1).Draw(t, "v2AnchorOffset"))
+					if nt > 0 {
+						c.T = uint64(nt)
+						c.V2Genesis = c.T + uint64(rapid.IntRange(0, 1).Draw(t, "v2GenesisAfter2"))
+					}
+				}
+			}
+		}
 		kind, sig, msg := evalCase(c)
-		ev.Record(chkRapid, nearBoundary(c), ev.Hash(c), "type:"+c.Type, fmt.Sprintf("in-window:%v", refmodel.InWindow(c.From, c.Until, c.T, p.TimeDelta)))
+		ev.Record(chkRapid, nearBoundary(c), ev.Hash(c), "type:"+c.Type, fmt.Sprintf("in-window:%v", refmodel.InWindow(c.From, c.Until, c.T, c.delta())), fmt.Sprintf("two-versions:%v", c.V2Delta != 0))
 		ev.SampleFn(chkRapid, func() interface{} { return c })
 		if kind != "" {
 			ev.Fail(t, chkRapid, kind, sig, c, "%s", msg)
